@@ -4,6 +4,7 @@ patch="$1"; shift
 wt=$(mktemp -d -u "${TMPDIR:-/tmp}/tryseed-XXXXXX")
 git -C /repo worktree add -q --detach "$wt" HEAD || exit 2
 if git -C "$wt" apply "$patch"; then
-  for p in "$@"; do VERIF_REPO="$wt" timeout 1500 "$(dirname "$0")/../vcheck" "$p" quick 2>&1 | grep -v "^KNOWN" | cut -c1-220 | tail -3; done
+  for p in "$@"; do VERIF_OUT="$wt.out" VERIF_REPO="$wt" timeout 1500 "$(dirname "$0")/../vcheck" "$p" quick 2>&1 | grep -v "^KNOWN" | cut -c1-220 | tail -3; done
 else echo "PATCH DOES NOT APPLY"; fi
 git -C /repo worktree remove --force "$wt"
+[ -n "$KEEP_OUT" ] || python3 -c "import shutil,sys; shutil.rmtree(sys.argv[1], ignore_errors=True)" "$wt.out"
